@@ -253,11 +253,21 @@ def leanchecker(ctx, modules):
 
 # ---------------------------------------------------------------- step 4: harness
 
+# VERIF_COVER=<dir>: build the harnesses with statement coverage of the library and collect the counters of every run there
+# (a review aid - `go tool covdata textfmt -i=<dir>` - never used by the registered commands)
+COVERDIR = os.environ.get("VERIF_COVER")
+COVERPKG = "github.com/plgd-dev/go-coap/v3/..."
+if COVERDIR:
+    os.makedirs(COVERDIR, exist_ok=True)
+    os.environ["GOCOVERDIR"] = COVERDIR
+
+
 def build_hx(ctx, pkg=None):
     """go build of the stateless harness command harness/<pkg> (package main)."""
     pkg = pkg or ctx.prop.lower()
     exe = os.path.join(WORK, "hx_" + pkg)
-    rc, out = sh([GO, "build", "-tags", "verif", "-o", exe, "./" + pkg], cwd=HARNESS, env=GOENV, timeout=900)
+    cover = ["-cover", "-coverpkg=" + COVERPKG] if COVERDIR else []
+    rc, out = sh([GO, "build", "-tags", "verif"] + cover + ["-o", exe, "./" + pkg], cwd=HARNESS, env=GOENV, timeout=900)
     if rc != 0:
         ctx.broken.append(("correspondence", "harness-build " + pkg, out[-2000:]))
         return None
@@ -268,15 +278,23 @@ def build_test(ctx, pkg=None, race=False):
     """go test -c of harness/<pkg> (synctest based harnesses, *_test.go files)."""
     pkg = pkg or ctx.prop.lower()
     exe = os.path.join(WORK, "ht_" + pkg.replace("/", "_") + (".race" if race else "") + ".test")
-    cmd = [GO, "test", "-c", "-tags", "verif", "-o", exe]
+    real = exe + ".bin" if COVERDIR else exe
+    cmd = [GO, "test", "-c", "-tags", "verif", "-o", real]
     env = GOENV
     if race:
         cmd.append("-race")
         env = dict(GOENV, CGO_ENABLED="1")
+    if COVERDIR:
+        cmd += ["-cover", "-coverpkg=" + COVERPKG]
     rc, out = sh(cmd + ["./" + pkg], cwd=HARNESS, env=env, timeout=900)
     if rc != 0:
         ctx.broken.append(("correspondence", "harness-build " + pkg, out[-2000:]))
         return None
+    if COVERDIR:
+        # coverage review (DESIGN 0.6): a wrapper that makes every invocation write its counters to $VERIF_COVER
+        with open(exe, "w") as f:
+            f.write('#!/bin/sh\nexec "%s" -test.gocoverdir="%s" "$@"\n' % (real, COVERDIR))
+        os.chmod(exe, 0o755)
     return exe
 
 
